@@ -733,8 +733,52 @@ func recordsError(fn *ssa.Function, depth int) bool {
 
 // runeConsts collects the rune/byte constants a function compares its inputs with, and the classifier functions it calls.
 func runeConsts(fn *ssa.Function) (consts map[string]bool, calls map[string]bool) {
+	return runeConstsD(fn, 0)
+}
+
+// isCharPredicate: func(rune) bool or func(byte) bool declared in the package.
+func isCharPredicate(f *ssa.Function, pkg *ssa.Package) bool {
+	if f == nil || f.Blocks == nil || f.Pkg != pkg || f.Signature.Recv() != nil {
+		return false
+	}
+	sig := f.Signature
+	if sig.Params().Len() != 1 || sig.Results().Len() != 1 || !isBoolean(sig.Results().At(0).Type()) {
+		return false
+	}
+	b, ok := sig.Params().At(0).Type().Underlying().(*types.Basic)
+	return ok && (b.Kind() == types.Int32 || b.Kind() == types.Uint8)
+}
+
+func runeConstsD(fn *ssa.Function, depth int) (consts map[string]bool, calls map[string]bool) {
 	consts, calls = map[string]bool{}, map[string]bool{}
+	// a character predicate of the package that is called, or handed to a library scan (strings.ContainsFunc,
+	// IndexFunc, ...), tests its characters on behalf of this function
+	merge := func(g *ssa.Function) {
+		if depth > 3 || g == fn || !isCharPredicate(g, fn.Pkg) {
+			return
+		}
+		c2, k2 := runeConstsD(g, depth+1)
+		for k := range c2 {
+			consts[k] = true
+		}
+		for k := range k2 {
+			calls[k] = true
+		}
+	}
 	eachInstr(fn, func(_ *ssa.BasicBlock, in ssa.Instruction) {
+		if call, ok := in.(*ssa.Call); ok {
+			merge(call.Call.StaticCallee())
+			for _, a := range call.Call.Args {
+				if g, ok := a.(*ssa.Function); ok {
+					merge(g)
+					if isCharPredicate(g, fn.Pkg) {
+						if o, ok := g.Object().(*types.Func); ok {
+							calls[o.FullName()] = true
+						}
+					}
+				}
+			}
+		}
 		switch x := in.(type) {
 		case *ssa.BinOp:
 			if x.Op != token.EQL && x.Op != token.NEQ {
